@@ -348,3 +348,38 @@ def c18g(ctx):
                           fail='status code %d is not a key of response._status_codes: building the status line raises KeyError inside the error path' % v.value)
     if n < 20:
         raise Undecided('only %d literal status codes found' % n)
+
+
+@rule('C18.h', floor=3)
+def c18h(ctx):
+    """request properties evaluated outside the catch-all (host, script_url, path ...) cannot raise on odd header values:
+    a split() result is only unpacked into n names with maxsplit n-1 and under a `sep in value` guard; a response body that is
+    cached and shared between responses is immutable bytes, not a stream"""
+    n = 0
+    for q, f in sorted(ctx.repo.funcs.items()):
+        if not (q.startswith('mapproxy/request/base.py:Request.') or q.startswith(APP + ':MapProxyApp.') or q.startswith('mapproxy/response.py:Response.')):
+            continue
+        g = f.cfg
+        for x in f.walk():
+            if isinstance(x, ast.Assign) and isinstance(x.targets[0], (ast.Tuple, ast.List)) and isinstance(x.value, ast.Call) and \
+                    isinstance(x.value.func, ast.Attribute) and x.value.func.attr in ('split', 'rsplit'):
+                n += 1
+                k = len(x.targets[0].elts)
+                call = x.value
+                sep = call.args[0] if call.args else None
+                ms = const_value(call.args[1]) if len(call.args) > 1 else const_value(keyword(call, 'maxsplit'))
+                subj = unparse(call.func.value)
+                guarded = sep is not None and g.guarded(g.node_of[id(x)], lambda at: at.op == 'in' and unparse(at.left) == unparse(sep) and unparse(at.right) == subj, True)
+                ctx.check(ms == k - 1 and guarded, '%s:split-unpack' % f.short, 'split result is unpacked into %d names with maxsplit %d under `%s in %s`' % (k, k - 1, unparse(sep) if sep else '?', subj), f, x,
+                          fail='%s unpacks %s into %d names without maxsplit=%d / guard: a header value with more separators (an IPv6 Host) raises '
+                               'ValueError outside the service error handling' % (f.short, unparse(call)[:40], k, k - 1))
+    hs = ctx.fn('mapproxy/request/base.py:Request.host')
+    ok = not any(isinstance(x, ast.Assign) and isinstance(x.targets[0], ast.Tuple) and is_call(x.value, 'split') and len(x.value.args) < 2 for x in hs.walk())
+    ctx.check(ok, 'Request.host:no-fixed-unpack', 'the Host header is taken apart by indexing, not by unpacking a fixed number of parts', hs,
+              fail='Request.host unpacks host.split(":") into a fixed number of names: "[::1]:8080" raises ValueError before any error handling')
+    er = ctx.fn('mapproxy/service/tile.py:TileLayer.empty_response')
+    asg = [s for s in er.walk() if isinstance(s, ast.Assign) and unparse(s.targets[0]) == 'self._empty_tile']
+    ok = bool(asg) and all(isinstance(s.value, ast.Call) and simple_name(s.value) in ('read', 'getvalue', 'bytes', 'tobytes') for s in asg)
+    ctx.check(ok, 'TileLayer.empty_response:cached-body-is-bytes', 'the cached empty tile is stored as bytes (every response gets its own body)', er,
+              fail='the cached empty tile is a shared stream object: a WSGI server that closes the first response (or two overlapping responses) '
+                   'breaks every later empty-tile answer of that layer')
